@@ -116,6 +116,7 @@ class _StackMixin(object):
         self.resp_len_by_sn = {}    # ... per service number (overrides resp_len)
         self.resp_kind = "ack"      # ack | error | reject | abort
         self.iam_seen = []
+        self.unconfirmed_seen = []
 
     # ---- server side
     def do_ConfirmedPrivateTransferRequest(self, apdu):
@@ -149,6 +150,9 @@ class _StackMixin(object):
             resp = AbortPDU(True, reason=0, context=apdu)
             resp.apduSrv = True
         self.response(resp)
+
+    def do_UnconfirmedPrivateTransferRequest(self, apdu):
+        self.unconfirmed_seen.append((str(apdu.pduSource), apdu.serviceNumber))
 
     def do_IAmRequest(self, apdu):
         self.iam_seen.append((str(apdu.pduSource), apdu.iAmDeviceIdentifier))
